@@ -405,6 +405,9 @@ func runC08Trace(c lib.Case) []string {
 	emit := func(s string) { out = append(out, s) }
 	for _, op := range c.Ops {
 		f := strings.Fields(op)
+		if os.Getenv("C08_TRACE") == "2" {
+			fmt.Fprintf(os.Stderr, "[%d] %.60s (prev -> %.80s)\n", len(out), op, strings.Join(out[max(0, len(out)-1):], ""))
+		}
 		if r.db == nil {
 			emit("no-db")
 			continue
@@ -523,8 +526,7 @@ func runC08Trace(c lib.Case) []string {
 				dir = fmt.Sprintf("%s-d%d", r.root, r.dirN)
 			}
 			if e := r.start(dir, []recovery.CheckpointHandle{h}); e != "" {
-				r.keep = append(r.keep, r.db)
-				r.db = nil
+				r.crash() // frees whatever the failed start left parked; later operations answer no-db
 				emit("failed " + e)
 				continue
 			}
@@ -975,7 +977,12 @@ func propC08() *lib.Prop {
 			}
 			h := c07Header(r, "C08")
 			if r.Chance(1, 3) {
-				h += fmt.Sprintf(" wal=%d", lib.Pick(r, []int{80, 150, 300}))
+				// a WAL limit close to the memtable size: rotations are then caused by either. (A much smaller limit
+				// makes a restore rotate more often than the six tasks the flush queue can hold while the harness
+				// keeps the flush tasks parked, and `Start` would block.)
+				var mem int
+				fmt.Sscanf(h[strings.Index(h, "mem=")+4:], "%d", &mem)
+				h += fmt.Sprintf(" wal=%d", mem+lib.Pick(r, []int{0, 20, 60}))
 			}
 			return lib.Case{Header: h, Ops: genC08Ops(r, n)}
 		},
